@@ -265,6 +265,9 @@ def run_signal(item):
                         ocp.subject_to(dsig >= -3.25, grid='integrator')
                 if item.get('gist'):
                     ocp.set_initial(sig, 0.3125)
+                    # a second, VECTOR-valued signal: the coefficients of one of its components through the gist grid
+                    bv = ocp.variable(2, grid='bspline', order=order)
+                    ocp.add_objective(ocp.integral(bv[0] * bv[0] + bv[1] * bv[1]))
                 ocp.method(MultipleShooting(N=N, M=item.get('M', 1), grid=grid) if method == 'MS' else DirectCollocation(N=N, M=item.get('M', 1), grid=grid, degree=2))
             master = ocp
             if item.get('clone'):
@@ -293,6 +296,8 @@ def run_signal(item):
                     # the coefficients and their Greville times through the 'gist' grid; a constant guess given BEFORE the transcription
                     tg, cg = ocp.sample(sig, grid='gist')
                     outs += [tg, cg]
+                    comp_syms = [[s_.name() + str(s_.shape) for s_ in ca.symvar(ocp.sample(bv[j_], grid='gist')[1])] for j_ in (0, 1)]
+                    comp_n = [ocp.sample(bv[j_], grid='gist')[1].numel() for j_ in (0, 1)]
                     opti_ = master._method.opti
                     gist_start = [float(v) for v in np.array(opti_.debug.value(cg, opti_.initial())).flatten()]
                 if item.get('intg_con'):
@@ -344,6 +349,10 @@ def run_signal(item):
                 return ctx.result('signal', {'kind': 'signal'})
             for i, g_ in enumerate(rb.greville(xi, order)):
                 ctx.prove('gist time[%d] == t0+T*greville' % i, out[4][i], ctx.rdom.const(t0v) + rT * ctx.rdom.const(g_), key + '|greville')
+            if comp_n == [N + order, N + order] and all(len(c_) == 1 for c_ in comp_syms):
+                ctx.proved.append("gist of a component of a vector-valued signal: N+order coefficients of that signal's variable (ground)")
+            else:
+                ctx.viol.append({'property': PROP, 'key': key + '|gist-component', 'label': 'gist(bv[j])', 'detail': 'coefficient counts %s, symbols %s' % (comp_n, comp_syms)})
             if all(abs(v - 0.3125) < 1e-12 for v in gist_start):
                 ctx.proved.append('constant guess reaches every coefficient (ground)')
             else:
